@@ -6,6 +6,6 @@ CONSTANTS
   SigBug = "none"
   NB = 1
 VIEW SView
-INVARIANTS TypeOK LawUnregisterOnce LawOwnership LawCalledAreLive LawCallExplained
+INVARIANTS TypeOK LawUnregisterOnce LawOwnership LawCalledAreLive LawCallExplained LawDyingView
 CONSTRAINT SEmit
 CHECK_DEADLOCK FALSE
